@@ -10,6 +10,20 @@
 //! variants) and which then shows storage[2] / cvt[0]; glyphs 8 and 14 overwrite those cells privately
 //! so that a following draw through the same caller buffer would see their leftovers.
 //!
+//! Glyphs 19..22 form the twilight family: original position of the prep-conditional twilight point 0,
+//! a glyph-time write of twilight point 1, and reads of the current / original position of twilight
+//! point 1 (which only a leak from scratch memory or from an earlier configuration can make non-zero).
+//!
+//! Glyphs 23..26 form the value-stack family: reads below the bottom of the interpreter stack (which is
+//! carved from the scratch memory) after nothing / after a popped push.
+//!
+//! Glyphs 27..32 form the retained-graphics-state family: control-value cut-in, minimum distance, single
+//! width + cut-in, delta base / shift, auto-flip and instruct-control bit 2 are set by prep only when
+//! ppem < 12 (the last two of them: < 8) and used unconditionally by one glyph each.
+//!
+//! prep also increments storage[3] and shifts twilight point 2 unconditionally (read-modify-write from
+//! the initial zero); glyphs 33 and 34 show them.
+//!
 //! Built with write-fonts only (GlyfLocaBuilder + FontBuilder) from the constants below.
 
 use font_types::{Fixed, FWord, LongDateTime, Tag, UfWord};
@@ -36,6 +50,30 @@ const RS: u8 = 0x43;
 const WCVTP: u8 = 0x44;
 const RCVT: u8 = 0x45;
 const GC0: u8 = 0x46;
+const GC1: u8 = 0x47;
+const SZP0: u8 = 0x13;
+const DUP: u8 = 0x20;
+const POP: u8 = 0x21;
+const ADD: u8 = 0x60;
+const SVTCA_X: u8 = 0x01;
+const SRP0: u8 = 0x10;
+const SHPIX: u8 = 0x38;
+const SMD: u8 = 0x1A;
+const SCVTCI: u8 = 0x1D;
+const SSWCI: u8 = 0x1E;
+const SSW: u8 = 0x1F;
+const MIAP1: u8 = 0x3F;
+const MDAP0: u8 = 0x2E;
+const FLIPOFF: u8 = 0x4E;
+const DELTAP1: u8 = 0x5D;
+const SDB: u8 = 0x5E;
+const SDS: u8 = 0x5F;
+const INSTCTRL: u8 = 0x8E;
+const PUSHB3: u8 = 0xB2;
+const PUSHW1: u8 = 0xB8;
+const MDRP_PLAIN: u8 = 0xC0;
+const MDRP_MIN: u8 = 0xC8;
+const MIRP_PLAIN: u8 = 0xE0;
 const SCFS: u8 = 0x48;
 const MPPEM: u8 = 0x4B;
 const LT: u8 = 0x50;
@@ -57,6 +95,12 @@ fn prep() -> Vec<u8> {
     let _ = ELSE_;
     // unconditional: storage[2] = 160 (read by the out-of-range write family)
     let mut p = vec![PUSHB2, 2, 160, WS];
+    // unconditional read-modify-write of state that a fresh instance starts at zero (audit): an
+    // instance that keeps it across `reconfigure` shows it whatever the order of the two sizes.
+    // storage[3] := storage[3] + 64 (RS before any WS of that slot)
+    p.extend([PUSHB1, 3, PUSHB1, 3, RS, PUSHB1, 64, ADD, WS]);
+    // twilight point 2 shifted by 1 px along y from wherever it is
+    p.extend([SVTCA_Y, PUSHB1, 0, SZP2, PUSHB2, 2, 64, SHPIX, PUSHB1, 1, SZP2]);
     p.extend([MPPEM, PUSHB1, 12, LT, IF]);
     // storage[0] = 128
     p.extend([PUSHB2, 0, 128, WS]);
@@ -68,6 +112,21 @@ fn prep() -> Vec<u8> {
     p.extend([PUSHB1, 1, FDEF, PUSHB1, 192, PUSHB1, 0, CALL, ENDF]);
     // instruction 0x91: move point 1 to y = 64
     p.extend([PUSHB1, UNUSED_OPCODE, IDEF, PUSHB1, 64, PUSHB1, 0, CALL, ENDF]);
+    // retained graphics state (audit; read by glyphs 27..31): control-value cut-in very large,
+    // minimum distance 2 px, single-width cut-in very large with a single width of 200 units,
+    // delta shift 1, auto-flip off
+    p.extend([PUSHW1, 0x40, 0x00, SCVTCI]);
+    p.extend([PUSHB1, 128, SMD]);
+    p.extend([PUSHW1, 0x40, 0x00, SSWCI]);
+    p.extend([PUSHB1, 200, SSW]);
+    p.extend([PUSHB1, 1, SDS]);
+    p.push(FLIPOFF);
+    p.push(EIF);
+    // second block, only when ppem < 8 (size 7.5 and unscaled): delta base 20 and instruct-control
+    // bit 2 (native ClearType: x movements are no longer ignored under smooth targets)
+    p.extend([MPPEM, PUSHB1, 8, LT, IF]);
+    p.extend([PUSHB1, 20, SDB]);
+    p.extend([PUSHB2, 4, 3, INSTCTRL]);
     p.push(EIF);
     p
 }
@@ -105,6 +164,49 @@ fn glyph_programs() -> Vec<Vec<u8>> {
         vec![PUSHB2, 4, 9, WCVTP, PUSHB1, 0, RCVT, PUSHB1, 0, CALL],
         vec![PUSHW2, 0x7F, 0xFF, 0, 9, WCVTP, PUSHB1, 0, RCVT, PUSHB1, 0, CALL],
         vec![PUSHB2, 3, 9, WCVTF, PUSHB1, 0, RCVT, PUSHB1, 0, CALL],
+        // ---- twilight family (audit): the ORIGINAL position of a twilight point and glyph-time
+        // twilight writes. prep moves twilight point 0 only when ppem < 12 (MIAP sets both the
+        // current and the original position); twilight point 1 is never touched by prep.
+        // 19: original position of twilight point 0 (GC[1]) — stale twilight_original_scaled shows
+        vec![SVTCA_Y, PUSHB1, 0, SZP2, PUSHB1, 0, GC1, PUSHB1, 1, SZP2, PUSHB1, 0, CALL],
+        // 20: glyph-time MIAP of twilight point 1 to cvt[0] (a private write), then show it
+        vec![SVTCA_Y, PUSHB1, 0, SZP0, PUSHB2, 1, 0, MIAP0, PUSHB1, 1, SZP0, PUSHB1, 0, SZP2, PUSHB1, 1, GC0, PUSHB1, 1, SZP2, PUSHB1, 0, CALL],
+        // 21: current position of twilight point 1 (must be the instance's 0, whatever glyph 20 left
+        // in the scratch memory)
+        vec![SVTCA_Y, PUSHB1, 0, SZP2, PUSHB1, 1, GC0, PUSHB1, 1, SZP2, PUSHB1, 0, CALL],
+        // 22: original position of twilight point 1
+        vec![SVTCA_Y, PUSHB1, 0, SZP2, PUSHB1, 1, GC1, PUSHB1, 1, SZP2, PUSHB1, 0, CALL],
+        // ---- value-stack family (audit): the interpreter's stack lives in the scratch memory. In
+        // non-pedantic mode reading below the stack bottom yields 0, never what the memory holds
+        // (pedantic: the draw fails the same way every time).
+        // 23: function 0 called with nothing below its own push (SWAP pops the missing value)
+        vec![PUSHB1, 0, CALL],
+        // 24: DUP on the empty stack
+        vec![DUP, PUSHB1, 0, CALL],
+        // 25: ADD on the empty stack
+        vec![ADD, PUSHB1, 0, CALL],
+        // 26: push 77, pop it, then read below the bottom: the 77 still sits in the stack memory
+        vec![PUSHB1, 77, POP, PUSHB1, 0, CALL],
+        // ---- retained graphics-state family (audit): each value is set by prep only under a ppem
+        // condition and used here unconditionally, so a value surviving `reconfigure` moves a point.
+        // 27: control-value cut-in — MIAP[round + cut-in] of point 1 to cvt[0] (1.6 px at ppem 16,
+        // away from the original 0 by more than the default cut-in of 17/16 px)
+        vec![SVTCA_Y, PUSHB2, 1, 0, MIAP1],
+        // 28: minimum distance — MDRP[min] of point 1 from point 0 (original distance 0)
+        vec![SVTCA_Y, PUSHB1, 0, SRP0, PUSHB1, 1, MDRP_MIN],
+        // 29: single width and its cut-in — plain MDRP of point 1 from point 0
+        vec![SVTCA_Y, PUSHB1, 0, SRP0, PUSHB1, 1, MDRP_PLAIN],
+        // 30: delta base and shift — DELTAP1 on point 1 (touched first: in backward-compatibility mode
+        // deltas only move touched points), 8 steps at ppem = base 9 + 7
+        vec![SVTCA_Y, PUSHB1, 1, MDAP0, PUSHB3, 0x7F, 1, 1, DELTAP1],
+        // 31: auto-flip — cvt[2] := -2 px privately, then MIRP of point 3 (11 px above point 0)
+        vec![PUSHB1, 2, PUSHW1, 0xFF, 0x80, WCVTP, SVTCA_Y, PUSHB1, 0, SRP0, PUSHB2, 3, 2, MIRP_PLAIN],
+        // 32: instruct-control bit 2 — an x movement, ignored in backward-compatibility mode
+        vec![SVTCA_X, PUSHB2, 1, 192, SCFS],
+        // 33: storage[3], which prep increments from its initial value
+        vec![PUSHB1, 3, RS, PUSHB1, 0, CALL],
+        // 34: current position of twilight point 2, which prep shifts from its initial position
+        vec![SVTCA_Y, PUSHB1, 0, SZP2, PUSHB1, 2, GC0, PUSHB1, 1, SZP2, PUSHB1, 0, CALL],
     ]
 }
 
@@ -150,7 +252,7 @@ pub fn build() -> Vec<u8> {
     maxp.max_function_defs = Some(4);
     maxp.max_instruction_defs = Some(2);
     maxp.max_stack_elements = Some(32);
-    maxp.max_size_of_instructions = Some(64);
+    maxp.max_size_of_instructions = Some(256);
     maxp.max_component_elements = Some(0);
     maxp.max_component_depth = Some(0);
     let hhea = Hhea::new(
